@@ -443,7 +443,7 @@ def gen_cases(ctx, budget, names):
             for ek in R.EXC_KINDS:
                 out.append(_case(name, id=pick_id(), text=pick_text(), exc=ek, payload=SPECIAL_PAYLOADS[1], code=rng.choice(NAMED_CODES)))
         elif fam == "transport":
-            kinds = R.CREATED_INNERS + R.DIRECT_INNERS + (R.STDIO_ONLY_INNERS if "stdio" in name else [])
+            kinds = R.CREATED_INNERS + R.DIRECT_INNERS + R.CHANGED_INNERS + (R.STDIO_ONLY_INNERS if "stdio" in name else [])
             for n in ((99, 100, 101) if quick and "stdio" in name else (101,) if quick else (1, 99, 100, 101, 102, 250, 1000)):  # around the 100-slot memory streams
                 out.append(_case(name, inner="burst", n=n, method=pick_text(), params=rng.choice([None, TWINS]), id={"i": 0}))
             for n in ((100_000, 300_000) if quick else (100_000, 300_000, 1_000_000, 3_000_000)):  # far above the 64 KiB chunks of pipes and streams
@@ -484,6 +484,8 @@ def gen_cases(ctx, budget, names):
         if fam_ in det and (i % 9 == 0 or b not in seen_rep):
             c["repeat_mutate"] = 1 + (i % 3 == 0)   # emit, let a consumer edit the emitted payload in place, emit again
             seen_rep.add(b)
+        if i % 3 == 1:
+            c["history"] = True  # non-default encoder options were used earlier in this process
         if i % 37 == 0:
             c["env"] = {"SKIP_JSONRPC_VALIDATION": "true"}  # the documented switch of the legacy class; emitters must not depend on it
     seen_branch = set()
@@ -728,7 +730,7 @@ def expected_payload(case):
     if fam == "ctor" or fam == "transport":
         inner = a.get("inner")
         if fam == "transport":
-            if isinstance(inner, dict) or inner in ("list", "burst", "big-between-small"):
+            if isinstance(inner, dict) or inner in ("list", "burst", "big-between-small") or inner in R.CHANGED_INNERS:
                 return []
             short = inner_ctor(inner)
             if "legacy-response" in inner:
@@ -848,6 +850,27 @@ class Emitters(Suite):
                 r = check_emitted(case, e, form)
                 if r is not None:
                     return r
+        for e in o["emitted"]:
+            rs = e.get("restate") or {}
+            for how in ("nested", "model_copy", "setattr"):
+                if rs.get(how) is False:
+                    return (f"serialiser-stale/{how}", f"{case['emitter']}: after the emitted {e.get('src')} was changed ({how}), model_dump_json still "
+                            f"describes an earlier state (model_dump shows the current one)", None)
+        ex0 = o.get("extra") or {}
+        if ex0.get("unparsable_lines") or (ex0.get("sent") is not None and ex0.get("lines") is not None and case["args"].get("inner") not in ("list",)
+                                           and ex0["lines"] != ex0["sent"] and not o.get("raised")):
+            return ("stdio-frame-not-one-line", f"{case['emitter']}: {ex0.get('sent')} message(s) written as {ex0.get('lines')} line(s), "
+                    f"{ex0.get('unparsable_lines')} of them not JSON on their own", {"lines": ex0.get("sent")})
+        if case["emitter"].startswith("transport:") and case["args"].get("inner") in R.CHANGED_INNERS and o["emitted"]:
+            mem0 = members(o["emitted"][0]["dump"]["wire"]) or {}
+            inner_ = case["args"]["inner"]
+            pm = members(mem0.get("params")) or {}
+            ok_ = {"changed-after-dump": pm.get("progress") == {"i": 2} and "nested" in pm,
+                   "copied-after-dump": isinstance(mem0.get("id"), dict) and R.s_(mem0["id"].get("s", [])).startswith("copy-of-"),
+                   "assigned-after-dump": isinstance(mem0.get("method"), dict) and R.s_(mem0["method"].get("s", [])).startswith("changed/")}[inner_]
+            if not ok_:
+                return ("serialiser-stale/transport", f"{case['emitter']}: a message serialised once, then changed ({inner_}), is written in its earlier state: "
+                        f"{o['emitted'][0]['dump']['wire']}", None)
         if o.get("repeated") and o.get("first_wires") is not None:
             last = [e.get("dump", {}).get("wire") for e in o["emitted"]]
             strip = (lambda w: without_error_text(w)) if case["args"].get("exc") else (lambda w: w)  # exception texts may carry object addresses
@@ -1053,7 +1076,7 @@ def model_line_for(case, o):
         inner = a.get("inner")
         if isinstance(inner, dict):
             return model_line_for({"emitter": inner["emitter"], "args": inner.get("args") or {}}, o)
-        if inner in ("dict-extra", "list", "burst", "big-between-small") or (inner in R.STDIO_ONLY_INNERS and "stdio" not in em):
+        if inner in ("dict-extra", "list", "burst", "big-between-small") or inner in R.CHANGED_INNERS or (inner in R.STDIO_ONLY_INNERS and "stdio" not in em):
             return None  # extra members / several messages / nothing sent: property oracle only
         sh = inner_ctor(inner)
         if "legacy-response" in inner:  # a dict result, `{}` otherwise
